@@ -83,12 +83,6 @@ Proof.
 Qed.
 
 (* cur[:-n] and cur[-n:] *)
-Lemma slice_to_neg (cur : pstr) (n : nat) : slice_to cur (- len (repeat 0%N n)) = py_drop_tail cur n.
-Proof.
-  unfold slice_to, len, py_drop_tail. rewrite repeat_length, py_bound_neg.
-  destruct (Nat.eqb n 0); reflexivity.
-Qed.
-
 Lemma slice_to_neg_len {Y : Type} (cur : pstr) (m : list Y) :
   slice_to cur (- len m) = py_drop_tail cur (length m).
 Proof.
